@@ -35,7 +35,7 @@ Section Final.
     - destruct (reval c f H R inv e [] g _); reflexivity.
     - destruct (reval c f H R inv e [] g _); reflexivity.
     - destruct (reval c f H R (negb inv) e [] g _); reflexivity.
-    - destruct r as [|x r]; [reflexivity|]. destruct (find_rule (x :: r) (cG c)); [|reflexivity].
+    - destruct r as [|x r]; [reflexivity|]. destruct (find_rule (x :: r) (rG c)); [|reflexivity].
       destruct (reval c f H (Some _) inv _ [] g _); reflexivity.
   Qed.
 
@@ -105,15 +105,16 @@ Section Final.
     - destruct (reval c f H R (negb inv) e [] g m1) as [m2|v1 g1 sc1 m2|pv m2 p2 r2|] eqn:E1; inversion E; subst; reflexivity.
     - destruct (reval c f H R inv e [] g m1) as [m2|v1 g1 sc1 m2|pv m2 p2 r2|] eqn:E1; inversion E; subst. eapply IH; eauto.
     - destruct (reval c f H R inv e sc g m1) as [m2|v1 g1 sc1 m2|pv m2 p2 r2|] eqn:E1; try discriminate.
-      unfold run_block in E. destruct (ce_act (cE c) c0 _); inversion E; subst. eapply IH; eauto.
-    - unfold run_block in E. destruct (ce_pred (cE c) c0 _) as [ok err st' gs'|]; [|discriminate].
+      unfold run_block in E. destruct (ce_act (rE c) c0 _); inversion E; subst. eapply IH; eauto.
+    - unfold run_block in E. destruct (ce_pred (rE c) c0 _) as [ok err st' gs'|]; [|discriminate].
       destruct ok; inversion E; reflexivity.
-    - unfold run_block in E. destruct (ce_pred (cE c) c0 _) as [ok err st' gs'|]; [|discriminate].
+    - unfold run_block in E. destruct (ce_pred (rE c) c0 _) as [ok err st' gs'|]; [|discriminate].
       destruct ok; inversion E; reflexivity.
-    - unfold run_block in E. pose proof (Fs c0 (block_ctx_ref c c0 [] (pos_of (cData c) (g_off g)) sc g m1)) as Hf.
+    - unfold run_block in E. cbn [rd rData rU rO rG rE] in E.
+      pose proof (Fs c0 (block_ctx_ref c c0 [] (pos_of (cData c) (g_off g)) sc g m1)) as Hf.
       destruct (ce_state (cE c) c0 _) as [ok err st' gs'|]; [|discriminate].
       inversion E; subst. cbn in *. exact Hf.
-    - destruct r as [|x r]; [discriminate|]. destruct (find_rule (x :: r) (cG c)); [|discriminate].
+    - destruct r as [|x r]; [discriminate|]. destruct (find_rule (x :: r) (rG c)); [|discriminate].
       destruct (reval c f H (Some _) inv _ [] g m1) as [m2|v1 g1 sc1 m2|pv m2 p2 r2|] eqn:E1; inversion E; subst. eapply IH; eauto.
     - eapply IH; eauto.
     - eapply rthrow_st; eauto.
@@ -273,7 +274,7 @@ Section Final.
       wf_e c e -> H_wf c H -> I c s -> Sim c s sc g m H R inv ->
       sim_res c sc g H R inv (parseExpr c wrap n e s) (reval_step n H R inv e sc g m).
     Proof.
-      intros He HH HI S. unfold parseExpr, reval_step, over_budget. cbn [u_cnt].
+      intros He HH HI S. unfold parseExpr, reval_step, over_budget. cbn [u_cnt rd rData rU rO rG rE].
       rewrite <- (S_cnt _ _ _ _ _ _ _ _ S). cbv zeta.
       change (exprCnt (set_exprCnt (exprCnt s + 1)%N s)) with (exprCnt s + 1)%N.
       destruct (negb (N.eqb (o_maxexpr (cO c)) 0) && N.ltb (o_maxexpr (cO c)) (exprCnt s + 1)) eqn:Hb.
@@ -301,7 +302,7 @@ Section Final.
         + pose proof (sim_pred c ev Hst Hev_st Hstale KAnd false c0 s1 sc g m1 H R inv (or_introl eq_refl) HI1 S1) as Hp.
           exact Hp.
         + pose proof (sim_pred c ev Hst Hev_st Hstale KNot true c0 s1 sc g m1 H R inv (or_intror eq_refl) HI1 S1) as Hp.
-          cbn [run_block] in *.
+          cbn [run_block rd rData rU rO rG rE] in *.
           destruct (run_block KNot c0 (ce_pred (cE c)) _ m1) as [[[[ok err] st'] m']|[pv m']]; [|exact Hp].
           destruct ok; exact Hp.
         + cbn in He. rewrite He. eapply sim_stc; eauto.
